@@ -234,6 +234,8 @@ def flags(ctx):
     for attr in ('implementation', 'interface_classes', 'features'):
         st = [v for t, v, s in attr_stores(init.node) if t.attr == attr and dotted(t.value) == 'self']
         ok = bool(st) and all(v is not None and ('mycls' in src(v, 300) or 'myclassname' in src(v, 300)) for v in st)
+        if ok and attr in ('interface_classes', 'features'):
+            ok = all('mycls.__mro__' in src(v, 300) for v in st)
         ctx.check(ok, f'{init.qualname}:automatic property {attr}', init.node, f'{attr} computed from the implementing class',
                   f'{attr} is not computed from the implementing class (skipping the wrapper class)', init)
 
